@@ -178,11 +178,18 @@ func runC11(r *simkit.Run) {
 // ---- shared component driven directly: instances attach while the component keeps reporting -------------------
 
 type sharedStub struct {
-	host component.Host
+	host      component.Host
+	failStart bool
 }
 
-func (c *sharedStub) Start(_ context.Context, h component.Host) error { c.host = h; return nil }
-func (c *sharedStub) Shutdown(context.Context) error                  { return nil }
+func (c *sharedStub) Start(_ context.Context, h component.Host) error {
+	c.host = h
+	if c.failStart {
+		return errStubStart
+	}
+	return nil
+}
+func (c *sharedStub) Shutdown(context.Context) error { return nil }
 
 // instHost is what the graph hands to a component for one instance: reports go to the service's reporter under the
 // instance's id.
@@ -220,7 +227,10 @@ func runC11Shared(r *simkit.Run) {
 		idx[ids[i]] = i
 	}
 	m := sharedcomponent.NewMap[string, *sharedStub]()
-	stub := &sharedStub{}
+	stub := &sharedStub{failStart: tp.Chance(1, 6)}
+	if stub.failStart {
+		r.Count("fault.shared_component_start_failure")
+	}
 	comps := make([]*sharedcomponent.Component[*sharedStub], ninst)
 	for i := range comps {
 		c, err := m.LoadOrStore("shr/1", func() (*sharedStub, error) { return stub, nil })
@@ -253,9 +263,14 @@ func runC11Shared(r *simkit.Run) {
 		// the service: Starting, Start, automatic OK if the instance is still Starting
 		rep.ReportStatus(ids[i], componentstatus.NewEvent(sStart))
 		if err := comps[i].Start(context.Background(), instHost{id: ids[i], rep: rep}); err != nil {
-			panic(err)
+			// the one Start of the shared component failed: the wrapper reports PermanentError on the component's
+			// behalf (to every instance, also those attached later), and so does the service for this instance
+			rep.ReportStatus(ids[i], componentstatus.NewPermanentErrorEvent(err))
+			x := sPerm
+			last = &x
+		} else {
+			rep.ReportOKIfStarting(ids[i])
 		}
-		rep.ReportOKIfStarting(ids[i])
 		attached++
 		if i > 0 {
 			r.Count("probe.late_instance_attached")
